@@ -231,6 +231,12 @@ func (i *interpreter) symBinop(op token.Token, t types.Type, x, y value) value {
 			panic(runtimeError("integer divide by zero"))
 		}
 		if sg {
+			if q, r, ok := i.splitDivConst(a, b); ok {
+				if op == token.QUO {
+					return mkval(q, kx)
+				}
+				return mkval(r, kx)
+			}
 			if op == token.QUO {
 				return mkval(c.SDiv(a, b), kx)
 			}
